@@ -256,6 +256,39 @@ Theorem C14_backup_retry_completes : forall opens_partial v s,
 Proof. exact backup_retry_completes. Qed.
 Print Assumptions C14_backup_retry_completes.
 
+(* a transfer whose copy command fails midway while the process lives on: the marker stays, the
+   directory is refused, the next PrepareSnapshot transfers again; for any sequence of failed and
+   crashed attempts an accepted backup is a complete one *)
+Theorem C14_failed_fetch_keeps_marker : forall opens_partial v s,
+  let s' := fetch_run v FFailed s in
+  cs_marked s' = true /\ backup_ok opens_partial s' = false.
+Proof. exact failed_fetch_keeps_marker. Qed.
+Print Assumptions C14_failed_fetch_keeps_marker.
+
+Theorem C14_failed_then_ok_fetches_again : forall op v,
+  let s1 := prepare op v FFailed {| cs_dir := DAbsent; cs_marked := false |} in
+  let s2 := prepare op v FOk s1 in
+  backup_ok op s1 = false /\ cs_dir s2 = DComplete v /\ backup_ok op s2 = true.
+Proof. exact failed_then_ok_fetches_again. Qed.
+Print Assumptions C14_failed_then_ok_fetches_again.
+
+Theorem C14_repeated_prepare_never_restores_garbage : forall op garbage v (attempts : list fetch_outcome) s,
+  slot_safe s ->
+  let s' := fold_left (fun st o => prepare op v o st) attempts s in
+  backup_ok op s' = true -> exists w, cs_dir s' = DComplete w /\ restored_content garbage s' = w.
+Proof. exact repeated_prepare_never_restores_garbage. Qed.
+Print Assumptions C14_repeated_prepare_never_restores_garbage.
+
+(* clearing the marker when the transfer is over whether or not it succeeded (seeded/C14-b2): the
+   half directory passes for a backup, the retry fetches nothing, Restore brings back garbage *)
+Theorem C14_unmark_on_failure_refuted :
+  exists v garbage,
+    let s1 := fetch_run_unmark_always v FFailed {| cs_dir := DAbsent; cs_marked := false |} in
+    let s2 := prepare true v FOk s1 in
+    backup_ok true s1 = true /\ s2 = s1 /\ restored_content garbage s2 <> v.
+Proof. exact unmark_on_failure_refuted. Qed.
+Print Assumptions C14_unmark_on_failure_refuted.
+
 (* the code before /repo b3a9b47 (no marker): a half written directory the engine happens to open is
    accepted and restored. Replayed on the Go code by the CB / CF crash cases (pebble and mem backups,
    fetches on all engines restored other content). *)
